@@ -1130,3 +1130,86 @@ func cellFieldLoad(v ssa.Value) (*ssa.FieldAddr, bool) {
 	_, isAl := fa.X.(*ssa.Alloc)
 	return fa, isAl
 }
+
+// valueSite is a place where a function runs: a static call of it, or a call of a function value that is the
+// function (a bound method value `x.m`, or a literal) after it was handed down through parameters of helpers.
+// shift: argument #i-shift of the site is the function's parameter #i (a bound method value carries its receiver).
+type valueSite struct {
+	site  ssa.CallInstruction
+	shift int
+}
+
+// runSitesThroughValues lists the places inside scope where fn runs: its static call sites, and the calls of the
+// method value / closure of fn, followed through the parameters of the in-scope helpers it is handed to
+// (`b.eachEmitted(again.emit)` with `f(msg)` inside eachEmitted).  complete is false when such a function value
+// is used for anything else (kept, returned, handed to code out of scope): then it may run from anywhere.
+func runSitesThroughValues(fn *ssa.Function, scope []*ssa.Function) (sites []valueSite, complete bool) {
+	complete = true
+	inScope := map[*ssa.Function]bool{}
+	for _, f := range scope {
+		inScope[f] = true
+	}
+	for _, s := range callSitesOf(fn, scope) {
+		if w := s.Parent(); w != nil && w.Synthetic != "" && fn.Object() != nil && w.Object() == fn.Object() {
+			continue // the call inside fn's own bound-method wrapper: the wrapper's value is followed below
+		}
+		sites = append(sites, valueSite{s, 0})
+	}
+	seen := map[ssa.Value]bool{}
+	var track func(fv ssa.Value, shift, depth int)
+	track = func(fv ssa.Value, shift, depth int) {
+		if seen[fv] {
+			return
+		}
+		seen[fv] = true
+		if depth > 3 {
+			complete = false
+			return
+		}
+		for _, r := range ssau.Referrers(fv) {
+			switch y := r.(type) {
+			case *ssa.DebugRef:
+			case ssa.CallInstruction:
+				cm := y.Common()
+				if cm.Value == fv {
+					sites = append(sites, valueSite{y, shift})
+					continue
+				}
+				h := cm.StaticCallee()
+				if h == nil || !inScope[h] || h.Blocks == nil {
+					complete = false
+					continue
+				}
+				for i, a := range cm.Args {
+					if a == fv {
+						if i < len(h.Params) {
+							track(h.Params[i], shift, depth+1)
+						} else {
+							complete = false
+						}
+					}
+				}
+			default:
+				complete = false
+			}
+		}
+	}
+	for _, g := range scope {
+		ssau.Instrs(g, func(in ssa.Instruction) {
+			mc, ok := in.(*ssa.MakeClosure)
+			if !ok {
+				return
+			}
+			w, _ := mc.Fn.(*ssa.Function)
+			if w == nil {
+				return
+			}
+			if w == fn {
+				track(mc, 0, 0)
+			} else if w.Synthetic != "" && fn.Object() != nil && w.Object() == fn.Object() && strings.HasSuffix(w.Name(), "$bound") {
+				track(mc, len(mc.Bindings), 0)
+			}
+		})
+	}
+	return sites, complete
+}
